@@ -124,6 +124,10 @@ PROGRAMS = {
     'nested': (dict(reentrant=True), [('acq', dict()), ('acq', dict()), ('rel', dict()), ('rel', dict())]),
     'nested_force': (dict(reentrant=True), [('acq', dict()), ('acq', dict()), ('rel', dict(force=True))]),
     'nonblocking': (dict(), [('acq', dict(blocking=False)), ('rel', dict())]),
+    # the same FileLock programs, but the holder starts a long-lived helper process (a plain child program
+    # that keeps every inheritable descriptor) as soon as it is inside the critical section
+    'blocking_helper': (dict(), [('acq', dict()), ('rel', dict())]),
+    'nested_helper': (dict(reentrant=True), [('acq', dict()), ('acq', dict()), ('rel', dict()), ('rel', dict())]),
 }
 
 
@@ -201,8 +205,29 @@ def crash(lock, program, n, logfile, resume=None):
             log('sleep')
 
     waited = [False]
+    helper = [program.endswith('_helper')]
+
+    def spawn_helper():
+        # runs OUTSIDE aiuti/filelock.py (no line events counted): a child program that inherits whatever
+        # descriptors are inheritable (close_fds=False) and outlives the victim
+        import subprocess
+        p = subprocess.Popen([sys.executable, '-c', 'import os, time; os.write(1, b"x"); time.sleep(4)'],
+                             close_fds=False, stdin=subprocess.DEVNULL, stdout=subprocess.PIPE,
+                             stderr=subprocess.DEVNULL)
+        with open(logfile + '.helper', 'w') as f:
+            f.write(str(p.pid))
+        # wait until the helper program is really running: only then has its exec() closed the
+        # close-on-exec descriptors it had copied at fork time (vfork/posix_spawn return earlier)
+        p.stdout.read(1)
 
     def after_success():
+        if helper[0]:
+            helper[0] = False
+            sys.settrace(None)
+            try:
+                spawn_helper()
+            finally:
+                sys.settrace(tracer)
         # waiter scenarios: stay inside the critical section until the parent has started the waiter
         if resume and not waited[0]:
             waited[0] = True
